@@ -496,6 +496,11 @@ def gen_case(rng):
         case["scopestack"] = True
     if rng.random() < 0.35:
         case["extra_db"] = gen_extra_db(rng, uni, db)
+    if rng.random() < 0.3:
+        # the database given in one of the other documented argument forms (source text / list / tuple of statements,
+        # the empty ones included) instead of an ImportDB object: same meaning, in particular "" is the EMPTY database,
+        # not "use the default one"
+        case["db_form"] = rng.choice(["str", "list", "tuple"])
     return case
 
 
@@ -843,6 +848,19 @@ def run_history(case, scratch_base):
         sys.path.insert(0, root)
         A._IMPORT_FAILED.clear()
         ModuleHandle._cls_cache.clear()
+        # a decoy DEFAULT database that knows an import for everything in the universe: any fallback from the database
+        # that was passed in to the environment's default one shows up as an import nobody asked for
+        decoy = os.path.join(root, "decoy_default_db.py")
+        with open(decoy, "w") as f:
+            for m in uni:
+                f.write("import %s\n" % m["path"])
+                for mem in m["members"]:
+                    f.write("from %s import %s\n" % (m["path"], mem))
+        old_env = {k: os.environ.get(k) for k in ("PYFLYBY_PATH", "PYFLYBY_KNOWN_IMPORTS_PATH", "PYFLYBY_MANDATORY_IMPORTS_PATH")}
+        os.environ["PYFLYBY_PATH"] = decoy
+        for k in ("PYFLYBY_KNOWN_IMPORTS_PATH", "PYFLYBY_MANDATORY_IMPORTS_PATH"):
+            os.environ.pop(k, None)
+        ImportDB._default_cache.clear()
         try:
             db = ImportDB(case["db"])
             extra = ImportDB(case["extra_db"]) if case.get("extra_db") else None
@@ -852,6 +870,9 @@ def run_history(case, scratch_base):
         except Exception as e:
             obs["db_err"] = type(e).__name__
             return obs
+        form = case.get("db_form")
+        stmts_ = [l for l in case["db"].splitlines() if l.strip()]
+        db_arg = db if not form else (case["db"] if form == "str" else (stmts_ if form == "list" else tuple(stmts_)))
         for p in case["preload"]:
             try:
                 importlib.import_module(p)
@@ -919,7 +940,7 @@ def run_history(case, scratch_base):
                         co["missing_fresh"] = "exc:" + type(e).__name__
                 with rec:
                     try:
-                        res = A.auto_import(code, stk, db=db, autoimported=autoimported, extra_db=extra)
+                        res = A.auto_import(code, stk, db=db_arg, autoimported=autoimported, extra_db=extra)
                     except Exception as e:
                         res = "exc:" + type(e).__name__
             elif call["kind"] == "symbol":
@@ -930,7 +951,7 @@ def run_history(case, scratch_base):
                     co["missing"] = "exc:" + type(e).__name__
                 with rec:
                     try:
-                        res = A.auto_import_symbol(call["name"], stk, db=(db | extra if extra is not None else db),
+                        res = A.auto_import_symbol(call["name"], stk, db=(db | extra if extra is not None else db_arg),
                                                    autoimported=autoimported)
                     except Exception as e:
                         res = "exc:" + type(e).__name__
@@ -990,6 +1011,15 @@ def run_history(case, scratch_base):
         except Exception:
             pass
         sys.dont_write_bytecode = old_dwb
+        try:
+            for k, v in old_env.items():
+                if v is None:
+                    os.environ.pop(k, None)
+                else:
+                    os.environ[k] = v
+            ImportDB._default_cache.clear()
+        except NameError:
+            pass
         shutil.rmtree(root, ignore_errors=True)
 
 
